@@ -18,7 +18,8 @@ Clauses of the property sentence and the theorems that carry them:
   `midpoint_count_error` (one interval of ray ∩ cell: `≤ dt`), `cell_entry_error`, `dt_bounds` (`dt < 1.5·step < 2·step`),
   `cart_cell_convex` (a box cell meets the ray in one interval): full strength for boxes;
   `multi_interval_error_partial` (`m` intervals: `≤ m·dt`), `three_intervals_exceed_two_dt`, `coarse_step_witness`,
-  `dt_lt_step_fixed`, `two_interval_cell_two_steps_fixed`: what holds / fails for non-convex cylindrical cells;
+  `dt_lt_step_fixed`, `two_interval_cell_two_steps_fixed`, `ring_at_most_two_intervals`: what holds / fails for
+  non-convex cylindrical cells;
 * "cells outside the mask or mapped to -1 receive nothing" — `inactive_get_nothing`, `mapFromMask_false`;
 * "with a voxel map that merges cells, each source's entry equals the sum of the entries of its cells under the
   one-source-per-cell map" — `merge_is_sum`;
@@ -779,6 +780,71 @@ theorem cart_cell_convex (trunc : α → Int) (ht : TruncSpec trunc) (dx dy dz :
   obtain ⟨c1, c2, c3⟩ := c
   simp only [cartCell, Prod.mk.injEq] at h1 h3 ⊢
   exact ⟨axis sx ux dx c1 hdx h1.1 h3.1, axis sy uy dy c2 hdy h1.2.1 h3.2.1, axis sz uz dz c3 hdz h1.2.2 h3.2.2⟩
+
+/-! ### ring cells: at most two intervals -/
+
+/-- squared distance from the axis along the path -/
+def rsq (sx sy ux uy t : α) : α := (sx + ux * t) * (sx + ux * t) + (sy + uy * t) * (sy + uy * t)
+
+/-- the squared radius is a convex function of the path parameter: its sub-level sets are convex -/
+theorem rsq_sublevel_convex (sx sy ux uy K t1 t2 t3 : α) (h12 : t1 ≤ t2) (h23 : t2 ≤ t3)
+    (h1 : rsq sx sy ux uy t1 < K) (h3 : rsq sx sy ux uy t3 < K) : rsq sx sy ux uy t2 < K := by
+  unfold rsq at *
+  rcases eq_or_lt_of_le (le_trans h12 h23) with h13 | h13
+  · have : t2 = t1 := le_antisymm (by rw [h13]; exact h23) h12
+    rw [this]; exact h1
+  · have key : (t3 - t1) * ((sx + ux * t2) * (sx + ux * t2) + (sy + uy * t2) * (sy + uy * t2)) ≤
+        (t3 - t2) * ((sx + ux * t1) * (sx + ux * t1) + (sy + uy * t1) * (sy + uy * t1)) +
+        (t2 - t1) * ((sx + ux * t3) * (sx + ux * t3) + (sy + uy * t3) * (sy + uy * t3)) := by
+      have hid : (t3 - t2) * ((sx + ux * t1) * (sx + ux * t1) + (sy + uy * t1) * (sy + uy * t1)) +
+          (t2 - t1) * ((sx + ux * t3) * (sx + ux * t3) + (sy + uy * t3) * (sy + uy * t3)) -
+          (t3 - t1) * ((sx + ux * t2) * (sx + ux * t2) + (sy + uy * t2) * (sy + uy * t2)) =
+          (ux * ux + uy * uy) * ((t2 - t1) * (t3 - t2) * (t3 - t1)) := by ring
+      have hnn : 0 ≤ (ux * ux + uy * uy) * ((t2 - t1) * (t3 - t2) * (t3 - t1)) := by
+        apply mul_nonneg
+        · nlinarith [mul_self_nonneg ux, mul_self_nonneg uy]
+        · apply mul_nonneg (mul_nonneg _ _) _ <;> linarith
+      linarith
+    have hpos : 0 < t3 - t1 := by linarith
+    have hub : (t3 - t2) * ((sx + ux * t1) * (sx + ux * t1) + (sy + uy * t1) * (sy + uy * t1)) +
+        (t2 - t1) * ((sx + ux * t3) * (sx + ux * t3) + (sy + uy * t3) * (sy + uy * t3)) ≤ (t3 - t1) * K := by
+      have a1 : (t3 - t2) * ((sx + ux * t1) * (sx + ux * t1) + (sy + uy * t1) * (sy + uy * t1)) ≤ (t3 - t2) * K :=
+        mul_le_mul_of_nonneg_left h1.le (by linarith)
+      have a2 : (t2 - t1) * ((sx + ux * t3) * (sx + ux * t3) + (sy + uy * t3) * (sy + uy * t3)) ≤ (t2 - t1) * K :=
+        mul_le_mul_of_nonneg_left h3.le (by linarith)
+      linarith
+    by_contra hc
+    have hge : K ≤ (sx + ux * t2) * (sx + ux * t2) + (sy + uy * t2) * (sy + uy * t2) := not_lt.mp hc
+    -- strictness: one of the two end terms is strictly below
+    rcases eq_or_lt_of_le h12 with e | l
+    · rw [← e] at hge; linarith
+    · have a1 : (t3 - t2) * ((sx + ux * t1) * (sx + ux * t1) + (sy + uy * t1) * (sy + uy * t1)) ≤ (t3 - t2) * K :=
+        mul_le_mul_of_nonneg_left h1.le (by linarith)
+      have a2 : (t2 - t1) * ((sx + ux * t3) * (sx + ux * t3) + (sy + uy * t3) * (sy + uy * t3)) < (t2 - t1) * K :=
+        mul_lt_mul_of_pos_left h3 (by linarith)
+      have : (t3 - t1) * K ≤ (t3 - t1) * ((sx + ux * t2) * (sx + ux * t2) + (sy + uy * t2) * (sy + uy * t2)) :=
+        mul_le_mul_of_nonneg_left hge hpos.le
+      linarith
+
+/-- A ring `lo ≤ r² < hi` meets a straight path in at most two intervals: the pattern in – out – in – out – in is
+impossible.  (With a convex φ-sector, `dphi ≤ 180°`, and a z-slab, a cell of a grid whose period is 360° is therefore met
+in at most two intervals; the periodic copies of a sector are what produces three or more.) -/
+theorem ring_at_most_two_intervals (sx sy ux uy lo hi t1 t2 t3 t4 t5 : α)
+    (h12 : t1 ≤ t2) (h23 : t2 ≤ t3) (h34 : t3 ≤ t4) (h45 : t4 ≤ t5)
+    (i1 : lo ≤ rsq sx sy ux uy t1 ∧ rsq sx sy ux uy t1 < hi)
+    (o2 : ¬ (lo ≤ rsq sx sy ux uy t2 ∧ rsq sx sy ux uy t2 < hi))
+    (i3 : lo ≤ rsq sx sy ux uy t3 ∧ rsq sx sy ux uy t3 < hi)
+    (o4 : ¬ (lo ≤ rsq sx sy ux uy t4 ∧ rsq sx sy ux uy t4 < hi))
+    (i5 : lo ≤ rsq sx sy ux uy t5 ∧ rsq sx sy ux uy t5 < hi) : False := by
+  -- t2 and t4 are inside the outer circle (convexity), hence inside the inner one
+  have b2 : rsq sx sy ux uy t2 < hi := rsq_sublevel_convex sx sy ux uy hi t1 t2 t3 h12 h23 i1.2 i3.2
+  have b4 : rsq sx sy ux uy t4 < hi := rsq_sublevel_convex sx sy ux uy hi t3 t4 t5 h34 h45 i3.2 i5.2
+  have c2 : rsq sx sy ux uy t2 < lo := by
+    by_contra h; exact o2 ⟨not_lt.mp h, b2⟩
+  have c4 : rsq sx sy ux uy t4 < lo := by
+    by_contra h; exact o4 ⟨not_lt.mp h, b4⟩
+  have c3 : rsq sx sy ux uy t3 < lo := rsq_sublevel_convex sx sy ux uy lo t2 t3 t4 h23 h34 c2 c4
+  linarith [i3.1]
 
 /-! ### angular period -/
 
